@@ -327,7 +327,7 @@ def convert_custom_data(
     0  0.3  3  5
     1  0.3  5  7
 
-    >>> params_custom_list = [["_"], ["_", "_"]]
+    >>> params_custom_list = ["_", ["_", "_"]]
     >>> params_names = ["beta", "trap_densities"]
 
     >>> convert_custom_data(
@@ -359,7 +359,7 @@ def convert_custom_data(
     idx = 0
     params: Sequence[Literal["_"]]
     for name, params in zip(params_names, params_custom_list, strict=False):
-        if len(params) == 1:
+        if params == "_":
             assert idx < num_columns
             new_custom_data[name] = custom_data.iloc[:, idx]
             idx += 1
@@ -501,7 +501,7 @@ class CustomMode:
         }
         params_names = [dim_names[key] for key in all_steps]
 
-        params_custom_list = list(all_steps.values())
+        params_custom_list = [step.values for step in self.enabled_steps]
         custom_data_df: "pd.DataFrame" = convert_custom_data(
             custom_data=self.custom_data,
             params_custom_list=params_custom_list,
